@@ -17,7 +17,7 @@ func init() {
 	fw.Register(&fw.Check{
 		ID:    "C15",
 		Level: "exploration",
-		Rule: "every instruction and terminator of every function of every accepted corpus module (atoms with all 66 kinds, /repo testdata, llvm-stress, generated modules) is examined: (1) completeness: the addresses of all non-nil value-typed fields found by reflection (directly, in argument lists, Incoming, Case, Clause, OperandBundle) must be exactly the pointers returned by Operands(); (2) liveness: a fresh same-typed sentinel written through each slot must change exactly that operand in LLString() and restoring must restore the text; (3) replace-all-uses: substituting a value through the slots of all users must leave no occurrence of its identifier in the printed function besides its definition; (4) Succs() must equal the block-valued target fields in order, be blocks of the same function, and follow a target rewritten through a slot; (5) after the operand-holding lists (Incs, Args, Cases, Clauses, Indices, bundles) are replaced by equal copies, Operands() must describe the new slots. " +
+		Rule: "every instruction and terminator of every function of every accepted corpus module (atoms with all 66 kinds, /repo testdata, llvm-stress, generated modules) is examined: (1) completeness: the addresses of all non-nil value-typed fields found by reflection (directly, in argument lists, Incoming, Case, Clause, OperandBundle) must be exactly the pointers returned by Operands(); (2) liveness: a fresh same-typed sentinel written through each slot must change exactly that operand in LLString() and restoring must restore the text; (3) replace-all-uses: substituting a value through the slots of all users must leave no occurrence of its identifier in the printed function besides its definition; (4) Succs() must equal the block-valued target fields in order, be blocks of the same function, and follow a target rewritten through a slot; (5) after the operand-holding lists (Incs, Args, Cases, Clauses, Indices, bundles) are replaced by equal copies, Operands() must describe the new slots; (6) no operand slot is shared by two users of a module. " +
 			"non-trivial = an instruction/terminator with at least one operand slot; distinct by (instruction kind, printed text)",
 		Gen:           genC15,
 		MinNontrivial: 300,
@@ -113,6 +113,41 @@ func c15Source(r *fw.Rec, s corpus.Source) {
 		return
 	}
 	r.Tally("inputs", "accepted")
+	// every operand slot belongs to one user: a slot returned by the Operands()
+	// of two instructions (two users built on a shared list) makes a write through
+	// one of them change the other
+	owner := map[*value.Value]string{}
+	for _, f := range m.Funcs {
+		for _, b := range f.Blocks {
+			users := make([]interface{}, 0, len(b.Insts)+1)
+			for _, inst := range b.Insts {
+				users = append(users, inst)
+			}
+			if b.Term != nil {
+				users = append(users, b.Term)
+			}
+			for _, u := range users {
+				op, ok := u.(operander)
+				if !ok {
+					continue
+				}
+				var ops []*value.Value
+				if p, _, _ := fw.Guard(func() { ops = op.Operands() }); p {
+					continue
+				}
+				me := fmt.Sprintf("%s in %s: %s", kindOf(u), f.Ident(), fw.Trunc(u.(llstringer).LLString(), 120))
+				for _, p := range ops {
+					if prev, dup := owner[p]; dup && prev != me {
+						r.Violate(fw.Violation{Key: "shared-slot/" + kindOf(u), Input: text,
+							What: fmt.Sprintf("one operand slot is returned by the Operands() of two users: `%s` and `%s`", prev, me)})
+						return
+					}
+					owner[p] = me
+				}
+			}
+		}
+	}
+	r.TallyN("slots", "distinct-slots-across-users", len(owner))
 	for _, f := range m.Funcs {
 		if len(f.Blocks) == 0 {
 			continue
